@@ -196,3 +196,24 @@ def install_sets(reg):
         ann_types={"tuple[list[BooleanSpace],list[VertexSet]|None]": RES2},
         local_types={"sets": OptLV, "seeds": LS, "result": RES2},
     ), method_of="SD")
+
+
+def install_mark_expanded(reg):
+    """_sd_algorithms.expand_source_SCCs._mark_expanded: the one place where the component-wise driver turns a node into an expanded one (C14: a stub that gains
+    successors loses the attractor data computed while it had none). The diagram invariant is NOT required or promised here - the caller adds the successors
+    around this call (attach_scc_subdiagram, outside the contracts) - only the effect on the node and the frame."""
+    def post(c):
+        v, o, n = c.sd, c.old.sd, c.node_id
+        return [("marked_expanded", v.expanded[n]),
+                ("stale_attractor_data_dropped", z3.Implies(z3.Not(o.expanded[n]), z3.And(OptLS.is_none(v.cand[n]), OptLS.is_none(v.seeds[n]), OptLV.is_none(v.sets[n])))),
+                ("data_of_an_expanded_node_kept", z3.Implies(o.expanded[n], z3.And(v.cand[n] == o.cand[n], v.seeds[n] == o.seeds[n], v.sets[n] == o.sets[n]))),
+                ("frame", z3.And(v.K == o.K, v.index == o.index, S.frame_edges(v, o), v.net == o.net, v.sym == o.sym, v.pn == o.pn,
+                                 S.frame_nodes(v, o, except_ids=(n,)),
+                                 S.frame_nodes(v, o, fields=("space", "skipped", "parent", "ppn", "pbn", "pnfvs", "succsig", "depth"))))]
+    pick = lambda fn, nm: (lambda c: dict(fn(c))[nm])
+    reg.add(Contract(
+        "biobalm._sd_algorithms.expand_source_SCCs._mark_expanded", params=[("sd", SD), ("node_id", TInt)], properties=("C14",),
+        requires=[lambda c: S.valid(c.sd, c.node_id)],
+        modifies={"sd": ["expanded", "cand", "seeds", "sets"]},
+        ensures=[(nm, pick(post, nm)) for nm in ["marked_expanded", "stale_attractor_data_dropped", "data_of_an_expanded_node_kept", "frame"]],
+        note="expanded flag set; attractor candidates / seeds / sets dropped iff the node was a stub; nothing else changes"))
